@@ -7,32 +7,49 @@ namespace Pfdl.Net
 open Pfdl
 
 mutual
-/-- the statement contains no parallel loop -/
-def NoPloop : Stmt → Prop
+/-- the statement contains no parallel loop - unless parallel loops are admitted (`ap`) -/
+def NoPloop (ap : Bool) : Stmt → Prop
   | .svc _ => True
   | .call _ => True
   | .par _ _ => True
-  | .cond _ p q _ => NoPloopL p ∧ NoPloopL q
-  | .cloop _ _ b _ => NoPloopL b
-  | .wloop _ b _ => NoPloopL b
-  | .ploop _ _ _ _ => False
-def NoPloopL : List Stmt → Prop
+  | .cond _ p q _ => NoPloopL ap p ∧ NoPloopL ap q
+  | .cloop _ _ b _ => NoPloopL ap b
+  | .wloop _ b _ => NoPloopL ap b
+  | .ploop _ _ _ _ => ap = true
+def NoPloopL (ap : Bool) : List Stmt → Prop
   | [] => True
-  | s :: ss => NoPloop s ∧ NoPloopL ss
+  | s :: ss => NoPloop ap s ∧ NoPloopL ap ss
 end
 
-def ProgNoPloop (P : Prog) : Prop := ∀ t ∈ P.tasks, NoPloopL t.body
+def ProgNoPloop (ap : Bool) (P : Prog) : Prop := ∀ t ∈ P.tasks, NoPloopL ap t.body
+
+mutual
+theorem noPloop_true : ∀ st : Stmt, NoPloop true st
+  | .svc _ => trivial
+  | .call _ => trivial
+  | .par _ _ => trivial
+  | .cond _ p q _ => ⟨noPloopL_true p, noPloopL_true q⟩
+  | .cloop _ _ b _ => noPloopL_true b
+  | .wloop _ b _ => noPloopL_true b
+  | .ploop _ _ _ _ => rfl
+theorem noPloopL_true : ∀ l : List Stmt, NoPloopL true l
+  | [] => trivial
+  | s :: ss => ⟨noPloop_true s, noPloopL_true ss⟩
+end
+
+theorem progNoPloop_true (P : Prog) : ProgNoPloop true P := fun t _ => noPloopL_true t.body
 
 /-- a callback refers to API objects that exist; it is no parallel-loop callback -/
-def CbOk (nt ns : Nat) : Cb → Prop
+def CbOk (P : Prog) (ap : Bool) (nt ns : Nat) : Cb → Prop
   | .taskStarted t => t < nt
   | .taskFinished t => t < nt
   | .svcStarted i => i < ns
   | .svcFinished i => i < ns
-  | .ploop _ _ _ _ _ _ _ => False
+  | .ploop _ _ c _ _ _ _ => ap = true ∧ (P.task? c.name).isSome = true   -- parallel loops only if admitted; their task exists
   | _ => True
 
-theorem CbOk.mono {nt ns nt' ns' : Nat} {cb : Cb} (h : CbOk nt ns cb) (h1 : nt ≤ nt') (h2 : ns ≤ ns') : CbOk nt' ns' cb := by
+theorem CbOk.mono {P : Prog} {ap : Bool} {nt ns nt' ns' : Nat} {cb : Cb} (h : CbOk P ap nt ns cb) (h1 : nt ≤ nt') (h2 : ns ≤ ns') :
+    CbOk P ap nt' ns' cb := by
   cases cb <;> simp_all [CbOk] <;> omega
 
 theorem dictGet_dictSet_self {κ ν} [DecidableEq κ] (d : List (κ × ν)) (k : κ) (v : ν) :
@@ -62,24 +79,24 @@ theorem dictGet_dictSet_of_isSome {κ ν} [DecidableEq κ] (d : List (κ × ν))
     · exact ⟨e, by simp only [List.mem_map]; exact ⟨e, he, by simp [hk]⟩, hek⟩
   · exact ⟨e, by simp [he], hek⟩
 
-structure GInv (P : Prog) (s : NS) : Prop where
+structure GInv (P : Prog) (ap : Bool) (e0 : Option String) (s : NS) : Prop where
   prog : s.prog = P
-  cbOk : ∀ (t : Nat) (l : List (Nat × Cb)), s.cbs[t]? = some l → ∀ c ∈ l, CbOk s.tasks.size s.svcs.size c.2
+  cbOk : ∀ (t : Nat) (l : List (Nat × Cb)), s.cbs[t]? = some l → ∀ c ∈ l, CbOk P ap s.tasks.size s.svcs.size c.2
   pd : ∀ (i : Nat) (a : SvcApi), s.svcs[i]? = some a → (dictGet s.placeDict a.uid).isSome = true
-  exc : s.exc = none ∨ s.exc = some "outOfFuel"
+  exc : s.exc = e0 ∨ (e0 = none ∧ s.exc = some "outOfFuel")   -- what was raised before (`e0`), or the model's fuel
 
-variable {P : Prog}
+variable {P : Prog} {ap : Bool} {e0 : Option String}
 
-theorem GInv.frame {s s' : NS} (h : GInv P s) (h1 : s'.prog = s.prog) (h2 : s'.cbs = s.cbs)
+theorem GInv.frame {s s' : NS} (h : GInv P ap e0 s) (h1 : s'.prog = s.prog) (h2 : s'.cbs = s.cbs)
     (h3 : s'.tasks.size = s.tasks.size) (h4 : s'.svcs = s.svcs) (h5 : s'.placeDict = s.placeDict)
-    (h6 : s'.exc = s.exc) : GInv P s' :=
+    (h6 : s'.exc = s.exc) : GInv P ap e0 s' :=
   ⟨h1 ▸ h.prog, by rw [h2, h3, h4]; exact h.cbOk, by rw [h4, h5]; exact h.pd, by rw [h6]; exact h.exc⟩
 
-theorem GInv.pushPlace {s : NS} (h : GInv P s) : GInv P s.pushPlace := h.frame rfl rfl rfl rfl rfl rfl
-theorem GInv.addIn {s : NS} (h : GInv P s) (p t : Nat) : GInv P (s.addIn p t) := h.frame rfl rfl rfl rfl rfl rfl
-theorem GInv.addOut {s : NS} (h : GInv P s) (p t : Nat) : GInv P (s.addOut p t) := h.frame rfl rfl rfl rfl rfl rfl
+theorem GInv.pushPlace {s : NS} (h : GInv P ap e0 s) : GInv P ap e0 s.pushPlace := h.frame rfl rfl rfl rfl rfl rfl
+theorem GInv.addIn {s : NS} (h : GInv P ap e0 s) (p t : Nat) : GInv P ap e0 (s.addIn p t) := h.frame rfl rfl rfl rfl rfl rfl
+theorem GInv.addOut {s : NS} (h : GInv P ap e0 s) (p t : Nat) : GInv P ap e0 (s.addOut p t) := h.frame rfl rfl rfl rfl rfl rfl
 
-theorem GInv.pushTrans {s : NS} (h : GInv P s) : GInv P s.pushTrans := by
+theorem GInv.pushTrans {s : NS} (h : GInv P ap e0 s) : GInv P ap e0 s.pushTrans := by
   refine ⟨h.prog, ?_, h.pd, h.exc⟩
   intro t l hl c hc
   have hl' : (s.cbs.push [])[t]? = some l := hl
@@ -88,8 +105,8 @@ theorem GInv.pushTrans {s : NS} (h : GInv P s) : GInv P s.pushTrans := by
   · cases hl'; simp at hc
   · exact h.cbOk t l hl' c hc
 
-theorem GInv.addCb {s : NS} (h : GInv P s) (t : Nat) (cb : Cb) (hcb : CbOk s.tasks.size s.svcs.size cb) :
-    GInv P (s.addCb t cb) := by
+theorem GInv.addCb {s : NS} (h : GInv P ap e0 s) (t : Nat) (cb : Cb) (hcb : CbOk P ap s.tasks.size s.svcs.size cb) :
+    GInv P ap e0 (s.addCb t cb) := by
   refine ⟨h.prog, ?_, h.pd, h.exc⟩
   intro t' l hl c hc
   have hl' : (s.cbs.modify t (fun l => l ++ [(s.ncb, cb)]))[t']? = some l := hl
@@ -109,15 +126,15 @@ theorem GInv.addCb {s : NS} (h : GInv P s) (t : Nat) (cb : Cb) (hcb : CbOk s.tas
   · simp only [ht, ↓reduceIte] at hl'
     exact h.cbOk t' l hl' c hc
 
-theorem GInv.pushTask {s : NS} (h : GInv P s) (name : String) (line : Nat) (parent : Option Nat)
-    (call : Option CallSite) (inLoop : Bool) : GInv P (s.pushTask name line parent call inLoop) := by
+theorem GInv.pushTask {s : NS} (h : GInv P ap e0 s) (name : String) (line : Nat) (parent : Option Nat)
+    (call : Option CallSite) (inLoop : Bool) : GInv P ap e0 (s.pushTask name line parent call inLoop) := by
   refine ⟨h.prog, ?_, h.pd, h.exc⟩
   intro t l hl c hc
   have := h.cbOk t l hl c hc
   exact this.mono (by show s.tasks.size ≤ (s.tasks.push _).size; simp) (Nat.le_refl _)
 
-theorem GInv.pushSvc {s : NS} (h : GInv P s) (c : CallSite) (ctx : Nat) (inLoop : Bool) (fin : Nat) :
-    GInv P (s.pushSvc c ctx inLoop fin) := by
+theorem GInv.pushSvc {s : NS} (h : GInv P ap e0 s) (c : CallSite) (ctx : Nat) (inLoop : Bool) (fin : Nat) :
+    GInv P ap e0 (s.pushSvc c ctx inLoop fin) := by
   refine ⟨h.prog, ?_, ?_, h.exc⟩
   · intro t l hl cb hc
     have := h.cbOk t l hl cb hc
@@ -131,11 +148,17 @@ theorem GInv.pushSvc {s : NS} (h : GInv P s) (c : CallSite) (ctx : Nat) (inLoop 
       exact dictGet_dictSet_self _ _ _
     · exact dictGet_dictSet_of_isSome _ _ _ _ (h.pd i a ha')
 
-theorem GInv.outOfFuel {s : NS} (h : GInv P s) : GInv P s.outOfFuel := by
+theorem GInv.outOfFuel {s : NS} (h : GInv P ap e0 s) : GInv P ap e0 s.outOfFuel := by
   unfold NS.outOfFuel NS.raise
   split
   · exact ⟨h.prog, h.cbOk, h.pd, h.exc⟩
-  · exact ⟨h.prog, h.cbOk, h.pd, Or.inr rfl⟩
+  · rename_i hnone
+    refine ⟨h.prog, h.cbOk, h.pd, Or.inr ⟨?_, rfl⟩⟩
+    rcases h.exc with he | ⟨_, he⟩
+    · rw [← he]; cases hx : s.exc with
+      | none => rfl
+      | some x => simp [hx] at hnone
+    · simp [he] at hnone
 
 theorem task?_mem (P : Prog) (n : String) (t : Task) (h : P.task? n = some t) : t ∈ P.tasks := by
   unfold Prog.task? at h
@@ -146,55 +169,61 @@ theorem size_pushTask (s : NS) (name : String) (line : Nat) (parent : Option Nat
   show (s.tasks.push _).size = _
   simp
 
+/-- `s'` is reached from `s` by generator steps: the invariant holds of it, no task object was lost, no key of
+    `place_dict` was lost, and nothing but the model's fuel was raised -/
+structure Ext (P : Prog) (ap : Bool) (e0 : Option String) (s s' : NS) : Prop where
+  inv : GInv P ap e0 s'
+  le : s.tasks.size ≤ s'.tasks.size
+  les : s.svcs.size ≤ s'.svcs.size
+  keys : ∀ u, (dictGet s.placeDict u).isSome = true → (dictGet s'.placeDict u).isSome = true
+
+theorem Ext.refl {s : NS} (h : GInv P ap e0 s) : Ext P ap e0 s s := ⟨h, Nat.le_refl _, Nat.le_refl _, fun _ h => h⟩
+theorem Ext.trans {a b c : NS} (h1 : Ext P ap e0 a b) (h2 : Ext P ap e0 b c) : Ext P ap e0 a c :=
+  ⟨h2.inv, Nat.le_trans h1.le h2.le, Nat.le_trans h1.les h2.les, fun u hu => h2.keys u (h1.keys u hu)⟩
+theorem Ext.pushPlace {s s' : NS} (h : Ext P ap e0 s s') : Ext P ap e0 s s'.pushPlace := ⟨h.inv.pushPlace, h.le, h.les, h.keys⟩
+theorem Ext.pushTrans {s s' : NS} (h : Ext P ap e0 s s') : Ext P ap e0 s s'.pushTrans := ⟨h.inv.pushTrans, h.le, h.les, h.keys⟩
+theorem Ext.addIn {s s' : NS} (h : Ext P ap e0 s s') (p t : Nat) : Ext P ap e0 s (s'.addIn p t) := ⟨h.inv.addIn p t, h.le, h.les, h.keys⟩
+theorem Ext.addOut {s s' : NS} (h : Ext P ap e0 s s') (p t : Nat) : Ext P ap e0 s (s'.addOut p t) := ⟨h.inv.addOut p t, h.le, h.les, h.keys⟩
+theorem Ext.addCb {s s' : NS} (h : Ext P ap e0 s s') (t : Nat) (cb : Cb) (hcb : CbOk P ap s'.tasks.size s'.svcs.size cb) :
+    Ext P ap e0 s (s'.addCb t cb) := ⟨h.inv.addCb t cb hcb, h.le, h.les, h.keys⟩
+theorem Ext.pushSvc {s s' : NS} (h : Ext P ap e0 s s') (c : CallSite) (ctx : Nat) (inLoop : Bool) (fin : Nat) :
+    Ext P ap e0 s (s'.pushSvc c ctx inLoop fin) :=
+  ⟨h.inv.pushSvc c ctx inLoop fin, h.le, Nat.le_trans h.les (by show s'.svcs.size ≤ (s'.svcs.push _).size; simp), fun u hu => dictGet_dictSet_of_isSome _ _ _ _ (h.keys u hu)⟩
+theorem Ext.pushTask {s s' : NS} (h : Ext P ap e0 s s') (name : String) (line : Nat) (parent : Option Nat)
+    (call : Option CallSite) (inLoop : Bool) : Ext P ap e0 s (s'.pushTask name line parent call inLoop) :=
+  ⟨h.inv.pushTask name line parent call inLoop, by rw [size_pushTask]; exact Nat.le_succ_of_le h.le, h.les, h.keys⟩
+
 /-- what every generator function keeps, at fuel `f` -/
-structure GKeeps (P : Prog) (f : Nat) : Prop where
+structure GKeeps (P : Prog) (ap : Bool) (e0 : Option String) (f : Nat) : Prop where
   stmts : ∀ (l : List Stmt) (ctx first last : Nat) (inLoop : Bool) (prev : Nat) (single : Bool) (s : NS),
-    ClosedL P l → NoPloopL l → GInv P s →
-    GInv P (genStmts f l ctx first last inLoop prev single s).2 ∧
-    s.tasks.size ≤ (genStmts f l ctx first last inLoop prev single s).2.tasks.size
+    ClosedL P l → NoPloopL ap l → GInv P ap e0 s → Ext P ap e0 s (genStmts f l ctx first last inLoop prev single s).2
   stmt : ∀ (st : Stmt) (ctx t1 t2 : Nat) (inLoop : Bool) (s : NS),
-    st.Closed P → NoPloop st → GInv P s →
-    GInv P (genStmt f st ctx t1 t2 inLoop s).2 ∧ s.tasks.size ≤ (genStmt f st ctx t1 t2 inLoop s).2.tasks.size
+    st.Closed P → NoPloop ap st → GInv P ap e0 s → Ext P ap e0 s (genStmt f st ctx t1 t2 inLoop s).2
   call : ∀ (c : CallSite) (ctx t1 t2 : Nat) (inLoop : Bool) (s : NS),
-    (P.task? c.name).isSome → GInv P s →
-    GInv P (genCall f c ctx t1 t2 inLoop s).2 ∧ s.tasks.size ≤ (genCall f c ctx t1 t2 inLoop s).2.tasks.size
+    (P.task? c.name).isSome → GInv P ap e0 s → Ext P ap e0 s (genCall f c ctx t1 t2 inLoop s).2
   calls : ∀ (cs : List CallSite) (ctx t1 t2 : Nat) (inLoop : Bool) (s : NS),
-    (∀ c ∈ cs, (P.task? c.name).isSome) → GInv P s →
-    GInv P (genCalls f cs ctx t1 t2 inLoop s) ∧ s.tasks.size ≤ (genCalls f cs ctx t1 t2 inLoop s).tasks.size
+    (∀ c ∈ cs, (P.task? c.name).isSome) → GInv P ap e0 s → Ext P ap e0 s (genCalls f cs ctx t1 t2 inLoop s)
 
 theorem outOfFuel_tasks (s : NS) : s.outOfFuel.tasks = s.tasks := by
   unfold NS.outOfFuel NS.raise; split <;> rfl
 
-theorem gkeeps_zero (P : Prog) : GKeeps P 0 where
-  stmts l ctx first last inLoop prev single s _ _ h := by
-    simp only [Net.genStmts]; exact ⟨h.outOfFuel, by rw [outOfFuel_tasks]; exact Nat.le_refl _⟩
-  stmt st ctx t1 t2 inLoop s _ _ h := by
-    simp only [Net.genStmt]; exact ⟨h.outOfFuel, by rw [outOfFuel_tasks]; exact Nat.le_refl _⟩
-  call c ctx t1 t2 inLoop s _ h := by
-    simp only [Net.genCall]; exact ⟨h.outOfFuel, by rw [outOfFuel_tasks]; exact Nat.le_refl _⟩
-  calls cs ctx t1 t2 inLoop s _ h := by
-    simp only [Net.genCalls]; exact ⟨h.outOfFuel, by rw [outOfFuel_tasks]; exact Nat.le_refl _⟩
+theorem outOfFuel_svcs (s : NS) : s.outOfFuel.svcs = s.svcs := by
+  unfold NS.outOfFuel NS.raise; split <;> rfl
 
+theorem outOfFuel_pd (s : NS) : s.outOfFuel.placeDict = s.placeDict := by
+  unfold NS.outOfFuel NS.raise; split <;> rfl
 
-/-- `s'` is reached from `s` by generator steps: the invariant holds of it and no task object was lost -/
-def Ext (P : Prog) (s s' : NS) : Prop := GInv P s' ∧ s.tasks.size ≤ s'.tasks.size
+theorem Ext.outOfFuel {s : NS} (h : GInv P ap e0 s) : Ext P ap e0 s s.outOfFuel :=
+  ⟨h.outOfFuel, by rw [outOfFuel_tasks]; exact Nat.le_refl _, by rw [outOfFuel_svcs]; exact Nat.le_refl _, fun u hu => by rw [outOfFuel_pd]; exact hu⟩
 
-theorem Ext.refl {s : NS} (h : GInv P s) : Ext P s s := ⟨h, Nat.le_refl _⟩
-theorem Ext.trans {a b c : NS} (h1 : Ext P a b) (h2 : Ext P b c) : Ext P a c := ⟨h2.1, Nat.le_trans h1.2 h2.2⟩
-theorem Ext.pushPlace {s s' : NS} (h : Ext P s s') : Ext P s s'.pushPlace := ⟨h.1.pushPlace, h.2⟩
-theorem Ext.pushTrans {s s' : NS} (h : Ext P s s') : Ext P s s'.pushTrans := ⟨h.1.pushTrans, h.2⟩
-theorem Ext.addIn {s s' : NS} (h : Ext P s s') (p t : Nat) : Ext P s (s'.addIn p t) := ⟨h.1.addIn p t, h.2⟩
-theorem Ext.addOut {s s' : NS} (h : Ext P s s') (p t : Nat) : Ext P s (s'.addOut p t) := ⟨h.1.addOut p t, h.2⟩
-theorem Ext.addCb {s s' : NS} (h : Ext P s s') (t : Nat) (cb : Cb) (hcb : CbOk s'.tasks.size s'.svcs.size cb) :
-    Ext P s (s'.addCb t cb) := ⟨h.1.addCb t cb hcb, h.2⟩
-theorem Ext.pushSvc {s s' : NS} (h : Ext P s s') (c : CallSite) (ctx : Nat) (inLoop : Bool) (fin : Nat) :
-    Ext P s (s'.pushSvc c ctx inLoop fin) := ⟨h.1.pushSvc c ctx inLoop fin, h.2⟩
-theorem Ext.pushTask {s s' : NS} (h : Ext P s s') (name : String) (line : Nat) (parent : Option Nat)
-    (call : Option CallSite) (inLoop : Bool) : Ext P s (s'.pushTask name line parent call inLoop) :=
-  ⟨h.1.pushTask name line parent call inLoop, by rw [size_pushTask]; exact Nat.le_succ_of_le h.2⟩
+theorem gkeeps_zero (P : Prog) : GKeeps P ap e0 0 where
+  stmts l ctx first last inLoop prev single s _ _ h := by simp only [Net.genStmts]; exact Ext.outOfFuel h
+  stmt st ctx t1 t2 inLoop s _ _ h := by simp only [Net.genStmt]; exact Ext.outOfFuel h
+  call c ctx t1 t2 inLoop s _ h := by simp only [Net.genCall]; exact Ext.outOfFuel h
+  calls cs ctx t1 t2 inLoop s _ h := by simp only [Net.genCalls]; exact Ext.outOfFuel h
 
-theorem Ext.foldCb {s : NS} (nctx : Nat) : ∀ (l : List Nat) (s' : NS), Ext P s s' → nctx < s'.tasks.size →
-    Ext P s (l.foldl (fun s l => s.addCb l (.taskFinished nctx)) s')
+theorem Ext.foldCb {s : NS} (nctx : Nat) : ∀ (l : List Nat) (s' : NS), Ext P ap e0 s s' → nctx < s'.tasks.size →
+    Ext P ap e0 s (l.foldl (fun s l => s.addCb l (.taskFinished nctx)) s')
   | [], _, h, _ => h
   | t :: l, s', h, hn => by
       simp only [List.foldl_cons]
@@ -222,12 +251,11 @@ macro "ext_steps" : tactic => `(tactic| repeat (first
 
 theorem closedL_cons {P : Prog} {st : Stmt} {l : List Stmt} (h : ClosedL P (st :: l)) : st.Closed P ∧ ClosedL P l := by
   simpa [ClosedL] using h
-theorem noPloopL_cons {st : Stmt} {l : List Stmt} (h : NoPloopL (st :: l)) : NoPloop st ∧ NoPloopL l := by
+theorem noPloopL_cons {st : Stmt} {l : List Stmt} (h : NoPloopL ap (st :: l)) : NoPloop ap st ∧ NoPloopL ap l := by
   simpa [NoPloopL] using h
 
-theorem gkeeps_succ (hc : P.Closed) (hn : ProgNoPloop P) (f : Nat) (ih : GKeeps P f) : GKeeps P (f + 1) where
+theorem gkeeps_succ (hc : P.Closed) (hn : ProgNoPloop ap P) (f : Nat) (ih : GKeeps P ap e0 f) : GKeeps P ap e0 (f + 1) where
   stmts l ctx first last inLoop prev single s hcl hnl h := by
-    show Ext P s _
     match l, hcl, hnl with
     | [], _, _ => simp only [Net.genStmts]; exact Ext.refl h
     | [st], hcl, hnl =>
@@ -235,12 +263,11 @@ theorem gkeeps_succ (hc : P.Closed) (hn : ProgNoPloop P) (f : Nat) (ih : GKeeps 
       exact ih.stmt st ctx _ last inLoop s (closedL_cons hcl).1 (noPloopL_cons hnl).1 h
     | st :: st2 :: rest, hcl, hnl =>
       simp only [Net.genStmts]
-      have h1 : Ext P s s.pushTrans := (Ext.refl h).pushTrans
-      have h2 := ih.stmt st ctx prev s.trans.size inLoop s.pushTrans (closedL_cons hcl).1 (noPloopL_cons hnl).1 h1.1
-      have h3 := ih.stmts (st2 :: rest) ctx first last inLoop s.trans.size single _ (closedL_cons hcl).2 (noPloopL_cons hnl).2 h2.1
+      have h1 : Ext P ap e0 s s.pushTrans := (Ext.refl h).pushTrans
+      have h2 := ih.stmt st ctx prev s.trans.size inLoop s.pushTrans (closedL_cons hcl).1 (noPloopL_cons hnl).1 h1.inv
+      have h3 := ih.stmts (st2 :: rest) ctx first last inLoop s.trans.size single _ (closedL_cons hcl).2 (noPloopL_cons hnl).2 h2.inv
       exact (h1.trans h2).trans h3
   stmt st ctx t1 t2 inLoop s hcs hns h := by
-    show Ext P s _
     cases st with
     | svc c =>
       simp only [Net.genStmt]
@@ -253,17 +280,17 @@ theorem gkeeps_succ (hc : P.Closed) (hn : ProgNoPloop P) (f : Nat) (ih : GKeeps 
       exact ih.call c ctx t1 t2 inLoop s (by simpa [Stmt.Closed] using hcs) h
     | par cs line =>
       simp only [Net.genStmt]
-      have h1 : Ext P s s.pushTrans.pushPlace := ((Ext.refl h).pushTrans).pushPlace
-      have h2 := ih.calls cs ctx t1 s.trans.size inLoop _ (by simpa [Stmt.Closed] using hcs) h1.1
+      have h1 : Ext P ap e0 s s.pushTrans.pushPlace := ((Ext.refl h).pushTrans).pushPlace
+      have h2 := ih.calls cs ctx t1 s.trans.size inLoop _ (by simpa [Stmt.Closed] using hcs) h1.inv
       exact ((h1.trans h2).addOut _ _).addIn _ _
     | cond e passed failed line =>
       simp only [Net.genStmt]
       have hcs' : ClosedL P passed ∧ ClosedL P failed := by simpa [Stmt.Closed] using hcs
-      have hns' : NoPloopL passed ∧ NoPloopL failed := by simpa [NoPloop] using hns
-      have keyP : ∀ (a b c : Nat) (d il : Bool) (S1 : NS), Ext P s S1 → Ext P s (genStmts f passed ctx a b il c d S1).2 :=
-        fun a b c d il S1 h1 => h1.trans (ih.stmts passed ctx a b il c d S1 hcs'.1 hns'.1 h1.1)
-      have keyF : ∀ (a b c : Nat) (d il : Bool) (S1 : NS), Ext P s S1 → Ext P s (genStmts f failed ctx a b il c d S1).2 :=
-        fun a b c d il S1 h1 => h1.trans (ih.stmts failed ctx a b il c d S1 hcs'.2 hns'.2 h1.1)
+      have hns' : NoPloopL ap passed ∧ NoPloopL ap failed := by simpa [NoPloop] using hns
+      have keyP : ∀ (a b c : Nat) (d il : Bool) (S1 : NS), Ext P ap e0 s S1 → Ext P ap e0 s (genStmts f passed ctx a b il c d S1).2 :=
+        fun a b c d il S1 h1 => h1.trans (ih.stmts passed ctx a b il c d S1 hcs'.1 hns'.1 h1.inv)
+      have keyF : ∀ (a b c : Nat) (d il : Bool) (S1 : NS), Ext P ap e0 s S1 → Ext P ap e0 s (genStmts f failed ctx a b il c d S1).2 :=
+        fun a b c d il S1 h1 => h1.trans (ih.stmts failed ctx a b il c d S1 hcs'.2 hns'.2 h1.inv)
       split
       · dsimp only
         ext_steps
@@ -277,21 +304,26 @@ theorem gkeeps_succ (hc : P.Closed) (hn : ProgNoPloop P) (f : Nat) (ih : GKeeps 
         ext_steps
     | cloop var lim body line =>
       simp only [Net.genStmt]
-      have keyB : ∀ (a b c : Nat) (d il : Bool) (S1 : NS), Ext P s S1 → Ext P s (genStmts f body ctx a b il c d S1).2 :=
-        fun a b c d il S1 h1 => h1.trans (ih.stmts body ctx a b il c d S1 (by simpa [Stmt.Closed] using hcs) (by simpa [NoPloop] using hns) h1.1)
+      have keyB : ∀ (a b c : Nat) (d il : Bool) (S1 : NS), Ext P ap e0 s S1 → Ext P ap e0 s (genStmts f body ctx a b il c d S1).2 :=
+        fun a b c d il S1 h1 => h1.trans (ih.stmts body ctx a b il c d S1 (by simpa [Stmt.Closed] using hcs) (by simpa [NoPloop] using hns) h1.inv)
       ext_steps
       apply keyB
       ext_steps
     | wloop e body line =>
       simp only [Net.genStmt]
-      have keyB : ∀ (a b c : Nat) (d il : Bool) (S1 : NS), Ext P s S1 → Ext P s (genStmts f body ctx a b il c d S1).2 :=
-        fun a b c d il S1 h1 => h1.trans (ih.stmts body ctx a b il c d S1 (by simpa [Stmt.Closed] using hcs) (by simpa [NoPloop] using hns) h1.1)
+      have keyB : ∀ (a b c : Nat) (d il : Bool) (S1 : NS), Ext P ap e0 s S1 → Ext P ap e0 s (genStmts f body ctx a b il c d S1).2 :=
+        fun a b c d il S1 h1 => h1.trans (ih.stmts body ctx a b il c d S1 (by simpa [Stmt.Closed] using hcs) (by simpa [NoPloop] using hns) h1.inv)
       ext_steps
       apply keyB
       ext_steps
-    | ploop var lim c line => simp [NoPloop] at hns
+    | ploop var lim c line =>
+      -- admitted only with `ap`: a placeholder place and the callback that builds the loop when it is reached
+      simp only [Net.genStmt]
+      have hap : ap = true := by simpa [NoPloop] using hns
+      have hsome : (P.task? c.name).isSome = true := by simpa [Stmt.Closed] using hcs
+      refine Ext.addCb ?_ _ _ ⟨hap, hsome⟩
+      ext_steps
   call c ctx t1 t2 inLoop s hsome h := by
-    show Ext P s _
     simp only [Net.genCall]
     rw [h.prog]
     cases ht : P.task? c.name with
@@ -299,44 +331,43 @@ theorem gkeeps_succ (hc : P.Closed) (hn : ProgNoPloop P) (f : Nat) (ih : GKeeps 
     | some t =>
       simp only
       have htm := task?_mem P c.name t ht
-      have h1 : Ext P s ((s.pushTask t.name c.line (some ctx) (some c) inLoop).addCb t1 (.taskStarted s.tasks.size)) :=
+      have h1 : Ext P ap e0 s ((s.pushTask t.name c.line (some ctx) (some c) inLoop).addCb t1 (.taskStarted s.tasks.size)) :=
         ((Ext.refl h).pushTask _ _ _ _ _).addCb _ _ (by simp [CbOk, size_pushTask])
-      have h2 := ih.stmts t.body s.tasks.size t1 t2 inLoop t1 (decide (t.body.length ≤ 1)) _ (hc t htm) (hn t htm) h1.1
+      have h2 := ih.stmts t.body s.tasks.size t1 t2 inLoop t1 (decide (t.body.length ≤ 1)) _ (hc t htm) (hn t htm) h1.inv
       have h3 := h1.trans h2
       refine Ext.foldCb _ _ _ h3 ?_
       have : s.tasks.size < (s.pushTask t.name c.line (some ctx) (some c) inLoop).tasks.size := by rw [size_pushTask]; omega
-      have h22 := h2.2
+      have h22 := h2.le
       rw [tasks_addCb] at h22
       exact Nat.lt_of_lt_of_le this h22
   calls cs ctx t1 t2 inLoop s hall h := by
-    show Ext P s _
     cases cs with
     | nil => simp only [Net.genCalls]; exact Ext.refl h
     | cons c cs =>
       simp only [Net.genCalls]
       have h1 := ih.call c ctx t1 t2 inLoop s (hall c (by simp)) h
-      have h2 := ih.calls cs ctx t1 t2 inLoop _ (fun c' hc' => hall c' (by simp [hc'])) h1.1
+      have h2 := ih.calls cs ctx t1 t2 inLoop _ (fun c' hc' => hall c' (by simp [hc'])) h1.inv
       exact Ext.trans h1 h2
 
 /-- every generator function keeps the invariant, for every fuel -/
-theorem gkeeps (hc : P.Closed) (hn : ProgNoPloop P) : ∀ f, GKeeps P f
+theorem gkeeps (hc : P.Closed) (hn : ProgNoPloop ap P) : ∀ f, GKeeps P ap e0 f
   | 0 => gkeeps_zero P
   | f+1 => gkeeps_succ hc hn f (gkeeps hc hn f)
 
-theorem Ext.addCbTask {s s' : NS} (h : Ext P s s') (t nctx : Nat) (fin : Bool) (hlt : nctx < s.tasks.size) :
-    Ext P s (s'.addCb t (if fin then Cb.taskFinished nctx else Cb.taskStarted nctx)) := by
+theorem Ext.addCbTask {s s' : NS} (h : Ext P ap e0 s s') (t nctx : Nat) (fin : Bool) (hlt : nctx < s.tasks.size) :
+    Ext P ap e0 s (s'.addCb t (if fin then Cb.taskFinished nctx else Cb.taskStarted nctx)) := by
   apply h.addCb
-  have := Nat.lt_of_lt_of_le hlt h.2
+  have := Nat.lt_of_lt_of_le hlt h.le
   cases fin <;> simpa [CbOk] using this
 
-theorem Ext.gen {s S1 : NS} {f : Nat} (hc : P.Closed) (hn : ProgNoPloop P) (l : List Stmt) (hcl : ClosedL P l) (hnl : NoPloopL l)
-    (ctx a b : Nat) (il : Bool) (c : Nat) (d : Bool) (h1 : Ext P s S1) : Ext P s (genStmts f l ctx a b il c d S1).2 :=
-  h1.trans ((gkeeps hc hn f).stmts l ctx a b il c d S1 hcl hnl h1.1)
+theorem Ext.gen {s S1 : NS} {f : Nat} (hc : P.Closed) (hn : ProgNoPloop ap P) (l : List Stmt) (hcl : ClosedL P l) (hnl : NoPloopL ap l)
+    (ctx a b : Nat) (il : Bool) (c : Nat) (d : Bool) (h1 : Ext P ap e0 s S1) : Ext P ap e0 s (genStmts f l ctx a b il c d S1).2 :=
+  h1.trans ((gkeeps hc hn f).stmts l ctx a b il c d S1 hcl hnl h1.inv)
 
 /-- construction: the generated net satisfies the generator invariant -/
-theorem generate_ginv (P : Prog) (hc : P.Closed) (hn : ProgNoPloop P) (valid : Bool) (fuel : Nat) :
-    GInv P (generate P valid fuel) := by
-  have h0 : GInv P { prog := P, valid := valid } :=
+theorem generate_ginv (P : Prog) (hc : P.Closed) (hn : ProgNoPloop ap P) (valid : Bool) (fuel : Nat) :
+    GInv P ap none (generate P valid fuel) := by
+  have h0 : GInv P ap none { prog := P, valid := valid } :=
     ⟨rfl, by intro t l hl; simp at hl, by intro i a ha; simp at ha, Or.inl rfl⟩
   unfold generate
   cases ht : P.task? Generated.startTaskName with
@@ -347,17 +378,17 @@ theorem generate_ginv (P : Prog) (hc : P.Closed) (hn : ProgNoPloop P) (valid : B
     · exact h0
     · have htm := task?_mem P _ t ht
       -- the production task's API object
-      have h1 : GInv P (({ prog := P, valid := valid } : NS).pushTask t.name t.line none none false) := h0.pushTask _ _ _ _ _
+      have h1 : GInv P ap none (({ prog := P, valid := valid } : NS).pushTask t.name t.line none none false) := h0.pushTask _ _ _ _ _
       have hsz : (({ prog := P, valid := valid } : NS).pushTask t.name t.line none none false).tasks.size = 1 := by
         rw [size_pushTask]; rfl
-      have h2 : GInv P { (({ prog := P, valid := valid } : NS).pushTask t.name t.line none none false) with
+      have h2 : GInv P ap none { (({ prog := P, valid := valid } : NS).pushTask t.name t.line none none false) with
           tasks := (({ prog := P, valid := valid } : NS).pushTask t.name t.line none none false).tasks.modify 0 (fun a => { a with uid := Uid.id 0 }) } :=
         h1.frame rfl rfl (by show (Array.modify _ _ _).size = _; rw [Array.size_modify]) rfl rfl rfl
       have hB : (0 : Nat) < ({ (({ prog := P, valid := valid } : NS).pushTask t.name t.line none none false) with
           tasks := (({ prog := P, valid := valid } : NS).pushTask t.name t.line none none false).tasks.modify 0 (fun a => { a with uid := Uid.id 0 }) } : NS).tasks.size := by
         show 0 < (Array.modify _ _ _).size
         rw [Array.size_modify, hsz]; exact Nat.one_pos
-      refine GInv.frame (Ext.addCbTask (s := _) (s' := _) ?_ _ 0 true hB).1 rfl rfl rfl rfl rfl rfl
+      refine GInv.frame (Ext.addCbTask (s := _) (s' := _) ?_ _ 0 true hB).inv rfl rfl rfl rfl rfl rfl
       apply Ext.addOut
       apply Ext.gen hc hn t.body (hc t htm) (hn t htm)
       apply Ext.pushTrans
@@ -367,5 +398,12 @@ theorem generate_ginv (P : Prog) (hc : P.Closed) (hn : ProgNoPloop P) (valid : B
       apply Ext.pushTrans
       apply Ext.pushPlace
       exact Ext.refl h2
+
+/-- construction raises nothing but the model's fuel -/
+theorem generate_exc (P : Prog) (hc : P.Closed) (hn : ProgNoPloop ap P) (valid : Bool) (fuel : Nat) :
+    (generate P valid fuel).exc = none ∨ (generate P valid fuel).exc = some "outOfFuel" := by
+  rcases (generate_ginv P hc hn valid fuel).exc with h | ⟨_, h⟩
+  · exact Or.inl h
+  · exact Or.inr h
 
 end Pfdl.Net
